@@ -19,42 +19,53 @@ from traits.observation import api as oapi
 
 META = {
     "level": "exploration",
-    "rule": ("cases = strings: (a) every token string over the 10 symbols {a b items + * . : , [ ]} "
-             "up to length 6 (quick) / 8 (thorough; length 8 is a 1-in-4 index-strided slice unless all "
-             "shards finish it), tokens concatenated with a blank only between two adjacent words; (b) "
-             "every derivation *shape* of the grammar (parallel/series/bracket structure x connector "
-             "choice) with <= 4 leaves at bracket depth <= 3 and 5 leaves at depth <= 2 (thorough: 5 "
-             "leaves depth 3, 6 leaves depth 2), leaves filled by a seeded sample of atoms (names, "
-             "items, +metadata, terminal *), plus random larger derivations, each with sampled "
-             "whitespace / redundant-bracket respellings; (c) random character-level strings and "
-             "1-3 character edits of valid strings over a hostile alphabet (unicode letters/digits, "
-             "tab, newline, NBSP, VT, ...); (d) cache-eviction round trips; (e) observe/remove by "
-             "different spellings on a live object tree. distinct_nontrivial counts distinct (part, "
-             "outcome, reference reject reason | accepted-shape class, variant kind) signatures; every "
-             "string is non-trivial (it is either rejected for a stated reason or has a denotation)."),
+    "rule": ("cases = strings: (a) EVERY token string over the 10 symbols {a b items + * . : , [ ]} of "
+             "length 1..6 (quick, 1 111 110 strings) / 1..8 (thorough, 111 111 110 strings), tokens "
+             "concatenated with one blank only between two adjacent words ('+' is its own symbol, so "
+             "'+a' and '+items' arise); (b) every derivation *shape* of the grammar (parallel / series "
+             "/ bracket structure x connector choice) with <= 4 leaves to bracket depth 3 and 5 leaves "
+             "to depth 2 (thorough: <= 5 leaves depth 3, plus a seed-rotated 1-in-8 slice of 6 leaves "
+             "depth 2), leaves filled by a seeded sample of atoms (names incl. itemsx/Items/unicode, "
+             "items, +metadata, terminal *), plus random larger derivations; each accepted string is "
+             "re-spelt with sampled whitespace (space, tab, newline, CR, FF, mixed, edges) and "
+             "redundant brackets (whole, doubled, one element, one series, a sub-series); (c) random "
+             "character-level strings and 1-3 character edits of valid strings over a hostile alphabet "
+             "(unicode letters/digits, NBSP, VT, EM SPACE, NEL, ZWSP, NUL, ...); (d) parse/compile of 8 "
+             "strings before and after >= 300 other accepted strings (lru eviction); (e) observe by "
+             "one spelling / remove by another on a live object tree with a notifier census. "
+             "distinct_nontrivial counts distinct signatures (rejected: the reference's reject reason; "
+             "accepted: top-level width, bracket depth, leaf-count class, */+metadata/items present, "
+             "bracket before a connector, connector kinds; respellings: part x variant kind x whether "
+             "expression/graph objects were equal; cache and live outcome classes).  Every string is "
+             "non-trivial: it is rejected for a stated reason or has a denotation that is compared."),
     "phases": [{"name": "main", "flavour": "P", "shards": 16}],
     "gates": {
-        "quick": {"evaluations": 500000, "accepted": 60000, "rejected": 400000,
-                  "tok_strings": 370000, "shape_cases": 60000, "variants_checked": 40000,
-                  "random_accepted": 3000, "random_rejected": 10000,
-                  "cache_rechecks": 500, "cache_evicted_reparse": 300,
-                  "live_roundtrips": 400, "live_attached": 300, "reject_reasons_seen": 5},
-        "thorough": {"evaluations": 20000000, "accepted": 2000000, "rejected": 12000000,
-                     "tok_strings": 12000000, "shape_cases": 1000000, "variants_checked": 1000000,
-                     "random_accepted": 100000, "random_rejected": 300000,
-                     "cache_rechecks": 10000, "cache_evicted_reparse": 6000,
-                     "live_roundtrips": 8000, "live_attached": 6000, "reject_reasons_seen": 5},
+        "quick": {"evaluations": 600000, "accepted": 200000, "rejected": 380000,
+                  "tok_strings": 370000, "shape_cases": 64000, "variants_checked": 120000,
+                  "random_accepted": 6000, "random_rejected": 12000,
+                  "cache_rechecks": 400, "cache_evicted_reparse": 400,
+                  "live_roundtrips": 500, "live_attached": 400, "reject_reasons_seen": 100},
+        "thorough": {"evaluations": 40000000, "accepted": 1500000, "rejected": 36000000,
+                     "tok_strings": 37000000, "shape_cases": 500000, "variants_checked": 1000000,
+                     "random_accepted": 200000, "random_rejected": 400000,
+                     "cache_rechecks": 8000, "cache_evicted_reparse": 8000,
+                     "live_roundtrips": 10000, "live_attached": 9000, "reject_reasons_seen": 100},
     },
     "exhaustive_parts": ("all token strings over {a,b,items,+,*,.,:,',',[,]} of length 1..6 (quick) / "
-                         "1..7 (thorough) -- acceptance, exception class and denotation checked on "
-                         "every one; all derivation shapes with <=4 leaves to bracket depth 3"),
-    "assumptions": ["the rules of _dsl_grammar.lark (terminals NAME=/[a-zA-Z_]\\w*/ with Python's "
-                    "unicode \\w, WS=[ \\t\\f\\r\\n]+ ignored between tokens) are the contract; the "
+                         "1..8 (thorough): acceptance, exception class and denotation checked on every "
+                         "one, unpruned; all derivation shapes with <= 4 leaves to bracket depth 3 "
+                         "(thorough: <= 5 leaves)"),
+    "assumptions": ["the rules of _dsl_grammar.lark (NAME=/[a-zA-Z_]\\w*/ with Python's unicode \\w, "
+                    "keyword items, WS=[ \\t\\f\\r\\n]+ ignored between tokens, '*' only as the "
+                    "last element of a top-level series) and the manual's table are the contract; the "
                     "manual's prose example \"[a.*, b.c]\" is not",
-                    "a set of root-to-leaf paths (kind, arg, notify, optional) is the meaning of a "
-                    "pattern; multiplicities of identical graphs are not",
-                    "strings stay far below the interpreter recursion limit (<= ~80 elements)"],
-    "case_timeout": 600,
+                    "the meaning of a pattern is its set of root-to-leaf paths (kind, arg, notify, "
+                    "optional); multiplicities of identical paths are not part of it",
+                    "strings stay far below the interpreter recursion limit (<= ~80 elements); the "
+                    "translator recurses once per series element",
+                    "graph nodes are read through their public attributes (name, notify, optional, "
+                    "filter.metadata_name) and classified by class name"],
+    "case_timeout": 900,
 }
 
 # ===========================================================================
@@ -320,13 +331,6 @@ def primary_feature(top, s):
 _WSNAME = {"\t": "tab", "\n": "newline", "\r": "cr", "\f": "formfeed", " ": "space"}
 
 
-def ws_feature(s):
-    for ch in "\t\n\r\f ":
-        if ch in s:
-            return "ws-" + _WSNAME[ch]
-    return None
-
-
 def shape_class(top):
     f = ast_features(top)
     lv = f["leaves"]
@@ -480,6 +484,18 @@ def node_desc(node):
     return ("node:" + tn, None, getattr(node, "notify", None), getattr(node, "optional", None))
 
 
+def fmt_paths(paths, limit=6):
+    """Compact literal form of a path set for samples."""
+    out = []
+    for p in sorted(paths, key=repr)[:limit]:
+        out.append(" -> ".join("%s%s%s%s" % (k, "" if a is None else "(%s)" % a,
+                                             "" if nf else " [quiet]", " [optional]" if opt else "")
+                               for k, a, nf, opt in p))
+    if len(paths) > limit:
+        out.append("... %d paths" % len(paths))
+    return out
+
+
 def impl_paths(graphs):
     out = set()
     stack = [(g, ()) for g in graphs]
@@ -541,6 +557,14 @@ class Checker:
         self.n = Counter()
         self.sigs = set()
         self.reasons = set()
+        self.sampled = set()
+        self.prev = None
+
+    def sample(self, part, obj):
+        """At most one literal case per workload part and shard."""
+        if part not in self.sampled:
+            self.sampled.add(part)
+            self.ctx.sample(obj)
 
     def flush(self):
         ctx = self.ctx
@@ -550,6 +574,7 @@ class Checker:
             else:
                 ctx.count(k, v)
         self.n.clear()
+        self.prev = None            # cases are self-contained (replay)
 
     def sig(self, *parts):
         if parts not in self.sigs:
@@ -606,7 +631,19 @@ class Checker:
             canon = render(ast)
             feat = primary_feature(ast, s)
             if canon != s and self.call(oapi.parse, canon)[0] == "ok":
-                feat = ws_feature(s) or feat
+                # the blanks are at fault: find which kind by replacing one kind at a time
+                feat = "ws-space"
+                for ch in "\t\n\r\f":
+                    if ch in s and self.call(oapi.parse, s.replace(ch, " "))[0] == "ok":
+                        feat = "ws-" + _WSNAME[ch]
+                        break
+                else:
+                    if any(ch in s for ch in "\t\n\r\f"):
+                        t = s
+                        for ch in "\t\n\r\f":
+                            t = t.replace(ch, " ")
+                        if self.call(oapi.parse, t)[0] == "ok":
+                            feat = "ws-several-kinds"
             ctx.violation("accept-mismatch/impl-rejects/" + feat,
                           "parse rejects %r which the grammar derives" % (s,),
                           {"string": s, "canonical": canon, "ast": ast})
@@ -634,6 +671,22 @@ class Checker:
                           {"string": s, "only_reference": sorted(want - got, key=repr)[:20],
                            "only_compiled": sorted(got - want, key=repr)[:20]})
             return None
+        # patterns with different meanings must not compare equal (else removal by
+        # text would match a registration of another pattern): checked against the
+        # previous accepted string, which in the enumerations is a near miss
+        prev = self.prev
+        self.prev = (want, graphs, s)
+        if prev is not None and prev[0] != want and len(prev[1]) == len(graphs):
+            n["distinct_meaning_pairs"] += 1
+            try:
+                equal = list(prev[1]) == list(graphs)
+            except Exception:  # noqa: BLE001
+                equal = False
+            if equal:
+                ctx.violation("equality/different-paths-equal-graphs",
+                              "compile_str(%r) == compile_str(%r) although the patterns differ"
+                              % (prev[2], s), {"first": prev[2], "second": s})
+                return None
         n["accepted"] += 1
         n["paths_compared"] += len(want)
         self.sig("acc", shape_class(ast))
@@ -671,6 +724,20 @@ class Checker:
         self.sig(part, "var", vkind, r[2] == graphs, r[1] == expr)
         return True
 
+    def near_miss(self, base, rng, part):
+        """A string one token away from `base` with another meaning: through the
+        previous-accepted comparison in check() its graphs must not equal base's."""
+        toks = ast_tokens(base[0])
+        sites = [i for i, t in enumerate(toks) if t in (".", ":") or (t[0] not in PUNCT and t != "items")]
+        if not sites:
+            return
+        i = rng.choice(sites)
+        t = toks[i]
+        toks[i] = ":" if t == "." else "." if t == ":" else t + rng.choice(["x", "_", "1"])
+        self.prev = (base[3], base[2], render(base[0]))
+        self.n["near_misses"] += 1
+        self.check("".join(toks), part)
+
     def variants(self, base, rng, part, nws, nbr):
         ast = base[0]
         toks = ast_tokens(ast)
@@ -686,6 +753,8 @@ class Checker:
             vs = render(v) if rng.random() < 0.7 else render_ws(ast_tokens(v), rng, "ws-mixed")
             if not self.check_variant(base, kind, vs, part):
                 return False
+        if rng.random() < 0.5:
+            self.near_miss(base, rng, part)
         return True
 
 
@@ -747,9 +816,9 @@ def part_tokens(ctx, ck):
                     nacc += 1
                     if L <= 5 or nacc % 4 == 0:
                         ck.variants(r, rng, "tok-var", 1, 1)
-                    if nacc == 1 and L >= 3:
-                        ctx.sample({"part": "token-string", "string": s,
-                                    "paths": sorted(r[3], key=repr)[:6]})
+                    if L >= 4:
+                        ck.sample("tok", {"part": "token-string", "string": s,
+                                          "paths": fmt_paths(r[3])})
             finally:
                 ck.flush()
                 ctx.end()
@@ -825,8 +894,8 @@ def unrank_P(n, d, i):
 
 
 NAMES_COMMON = ["a", "b", "a", "b", "c", "items_", "itemsx", "Items", "_", "a1", "x_y", "item"]
-NAMES_ODD = ["aé", "b٣", "a²", "_ſ", "Z9_", "__items__", "aitems", "i",
-             "aＡ", "nⅧ"]
+NAMES_ODD = ["a\u00e9", "b\u0663", "a\u00b2", "_\u017f", "Z9_", "__items__", "aitems", "i",
+             "a\uff21", "n\u2167", "a\u4e2d\u6587", "k\U0001d51e"]
 
 
 def pick_atom(rng, allow_star):
@@ -923,9 +992,9 @@ def part_shapes(ctx, ck):
                             raise AssertionError("oracle bug: derivation %r rejected by reference" % s)
                         continue
                     ck.variants(r, rng, "shape-var", nws, nbr)
-                    if idx == b0 + 7 and n >= 3:
-                        ctx.sample({"part": "derivation", "string": s,
-                                    "paths": sorted(r[3], key=repr)[:6]})
+                    if n >= 3 and idx > b0 + 7:
+                        ck.sample("shape", {"part": "derivation", "string": s,
+                                            "paths": fmt_paths(r[3])})
             finally:
                 ck.flush()
                 ctx.end()
@@ -959,10 +1028,10 @@ def part_shapes(ctx, ck):
 # ===========================================================================
 PIECES = (["a", "b", "c", "_", "x1", "items", "items", "Items", "item", "itemsx", "ITEMS"]
           + list("+*.:,[]") * 3
-          + [" ", " ", "\t", "\n", "\r", "\f", "\v", "\x1c", "\x85", " ", " ", " ",
-             "​", "﻿"]
-          + ["1", "9", "é", "ſ", "٣", "²", "①", "Ⅷ", "ａ", "０",
-             "́", "ß", "中", "\U0001d51e", "İ"]
+          + [" ", " ", "\t", "\n", "\r", "\f", "\v", "\x1c", "\x85", "\u00a0", "\u2003", "\u3000",
+             "\u2028", "\u200b", "\ufeff"]
+          + ["1", "9", "\u00e9", "\u017f", "\u0663", "\u00b2", "\u2460", "\u2167", "\uff41", "\uff10",
+             "\u0301", "\u00df", "\u4e2d", "\U0001d51e", "\u0130"]
           + ["(", ")", "-", "|", "'", "\"", "\\", "\x00", "/", "=", "!", "&", "{", "}", ";", "#", "@",
              "..", "::", ",,", "[]", "+ ", "+\n", "*.", ".*", ":*"])
 
@@ -1020,9 +1089,8 @@ def part_random(ctx, ck):
                         ck.n["random_accepted_nonascii"] += 1
                     if k % 4 == 0:
                         ck.variants(r, rng, "rand-var", 1, 1)
-                if b0 == 0 and k in (3, 11):
-                    ctx.sample({"part": "random", "string": s,
-                                "outcome": "rejected" if len(r) == 1 else sorted(r[3], key=repr)[:4]})
+                if len(r) == 1 and not s.isascii() and len(s) > 4:
+                    ck.sample("rand", {"part": "random", "string": s, "outcome": "both reject"})
         finally:
             ck.flush()
             ctx.end()
@@ -1338,9 +1406,9 @@ def live_case(ctx, ck, rng, c):
                       {"registered": s1, "removed": s2})
         return
     ck.sig("live", vkind, shape_class(ast), c1 != c0)
-    if c < 2 * ctx.nshards and c1 != c0:
-        ctx.sample({"part": "live", "registered": s1, "removed_by": s2,
-                    "notifier_slots_attached": len(c1) - len(c0)}, cap=2)
+    if c1 != c0 and len(s1) > 8:
+        ck.sample("live", {"part": "live", "registered": s1, "removed_by": s2,
+                           "notifier_slots_attached": len(c1) - len(c0)})
 
 
 def part_live(ctx, ck):
